@@ -43,7 +43,7 @@ def check(run):
     return run.finish(level='proof',
         rule='ops executed on the implementation; every distinct dump checked by the C14 oracle (keys vs independent pre-order walk); node-set queries on edited vs re-parsed documents compared as rank lists',
         assumptions=['initial stores satisfy TreeInv and have a fresh order vector', 'documents without DTD-defaulted attributes',
-                     'second sentence of C14 (XPath) is checked on the implementation only, not proved'])
+                     'second sentence of C14: proved on the model up to the hypothesis that the re-parsed serialisation shows the same tree (C15 / C04); the equality with a re-parse is checked on the implementation by the Q operations'])
 
 def replay(path):
     return D.replay_file(path, 'c14')
